@@ -111,58 +111,22 @@ Definition kw_shape (kw : option str * expr) : bool := match kw with (_, v) => s
 Definition kw_plain (kw : option str * expr) : bool :=
   match kw with (k, v) => (match k with Some _ => true | None => false end) && plain_ok v end.
 
-Definition conv_kw (strict : bool) (kw : option str * expr) : cres (option str * tree) :=
-  match kw with (k, v) => bindc (convert strict v) (fun tv => Ok (k, tv)) end.
+Definition conv_kw (kw : option str * expr) : cres (option str * tree) :=
+  match kw with (k, v) => bindc (convert v) (fun tv => Ok (k, tv)) end.
 
-Lemma convert_call strict p f args kws :
-  convert strict (ECall p f args kws) =
-  if strict && negb (forallb kw_named kws) then Err (ErrUnsupported p) else
-  bindc (mapMc (convert strict) args) (fun targs =>
-  bindc (mapMc (conv_kw strict) kws) (fun tkws =>
-  bindc (convert strict f) (fun tf => Ok (TCall tf targs tkws)))).
+Lemma convert_call p f args kws :
+  convert (ECall p f args kws) =
+  if negb (forallb kw_named kws) then Err (ErrUnsupported p) else
+  bindc (mapMc (convert) args) (fun targs =>
+  bindc (mapMc (conv_kw) kws) (fun tkws =>
+  bindc (convert f) (fun tf => Ok (TCall tf targs tkws)))).
 Proof. reflexivity. Qed.
 
 Lemma is_ok_bindc {A B} (x : cres A) (f : A -> cres B) (b : bool) :
   (forall a, x = Ok a -> is_ok (f a) = b) -> is_ok (bindc x f) = is_ok x && b.
 Proof. destruct x; cbn; intros H; [apply H; reflexivity | reflexivity]. Qed.
 
-(* The code as it is accepts exactly the shape-correct expressions... *)
-Lemma convert_false_ok_iff : forall e, is_ok (convert false e) = shape_ok e.
-Proof.
-  induction e using expr_ind2.
-  - (* BoolOp *) cbn [convert shape_ok]. rewrite (is_ok_bindc _ _ true) by reflexivity.
-    rewrite mapMc_ok_iff, andb_true_r. apply (Forall_forallb_eq _ _ _ _ H). auto.
-  - destruct op; cbn [convert shape_ok andb]; [|reflexivity].
-    destruct (convert false e1); cbn in *; rewrite <- IHe1; [|reflexivity].
-    destruct (convert false e2); cbn in *; rewrite <- IHe2; reflexivity.
-  - destruct op; cbn [convert shape_ok]; [|reflexivity].
-    destruct (convert false e); cbn in *; rewrite <- IHe; reflexivity.
-  - cbn [convert shape_ok]. destruct ops as [|op [|op2 ops]]; try reflexivity.
-    destruct cs as [|c [|c2 cs]]; try reflexivity.
-    inversion H as [|? ? Hc _]; subst.
-    destruct (convert false e); cbn in *; rewrite <- IHe; [|reflexivity].
-    destruct (convert false c); cbn in *; rewrite <- Hc; reflexivity.
-  - cbn. destruct (named_constant id); reflexivity.
-  - reflexivity.
-  - cbn [convert shape_ok]. destruct (convert false e); cbn in *; rewrite <- IHe; reflexivity.
-  - cbn [convert shape_ok]. rewrite (is_ok_bindc _ _ true) by reflexivity.
-    rewrite mapMc_ok_iff, andb_true_r. apply (Forall_forallb_eq _ _ _ _ H). auto.
-  - cbn [convert shape_ok]. rewrite (is_ok_bindc _ _ true) by reflexivity.
-    rewrite mapMc_ok_iff, andb_true_r. apply (Forall_forallb_eq _ _ _ _ H). auto.
-  - rewrite convert_call. cbn [andb shape_ok].
-    assert (Ha : is_ok (mapMc (convert false) args) = forallb shape_ok args).
-    { rewrite mapMc_ok_iff. apply (Forall_forallb_eq _ _ _ _ H). auto. }
-    assert (Hk : is_ok (mapMc (conv_kw false) kws) = forallb kw_shape kws).
-    { rewrite mapMc_ok_iff. apply (Forall_forallb_eq _ _ _ _ H0). intros [k v] Hv; cbn in *.
-      rewrite <- Hv. destruct (convert false v); reflexivity. }
-    fold kw_shape.
-    destruct (mapMc (convert false) args); cbn in *; rewrite <- Ha; [|rewrite andb_false_r; reflexivity].
-    destruct (mapMc (conv_kw false) kws); cbn in *; rewrite <- Hk; [|rewrite andb_false_r; reflexivity].
-    rewrite <- IHe. destruct (convert false e); reflexivity.
-  - reflexivity.
-Qed.
-
-(* ... the repaired code exactly the supported ones. *)
+(* The converter accepts exactly the supported expressions. *)
 Ltac dbools :=
   repeat match goal with
   | H : context [shape_ok ?e] |- _ => destruct (shape_ok e)
@@ -173,37 +137,37 @@ Ltac dbools :=
   | |- context [forallb ?f ?l] => destruct (forallb f l)
   end; cbn in *; try congruence.
 
-Lemma convert_true_ok_iff : forall e, is_ok (convert true e) = supported e.
+Lemma convert_ok_iff : forall e, is_ok (convert e) = supported e.
 Proof.
   unfold supported. induction e using expr_ind2.
   - cbn [convert shape_ok plain_ok]. rewrite (is_ok_bindc _ _ true) by reflexivity.
     rewrite mapMc_ok_iff, andb_true_r, <- forallb_and. apply (Forall_forallb_eq _ _ _ _ H). auto.
   - destruct op; cbn [convert shape_ok plain_ok andb]; [|reflexivity].
-    destruct (convert true e1); cbn [bindc is_ok] in *;
-      destruct (convert true e2); cbn [bindc is_ok] in *; dbools.
+    destruct (convert e1); cbn [bindc is_ok] in *;
+      destruct (convert e2); cbn [bindc is_ok] in *; dbools.
   - destruct op; cbn [convert shape_ok plain_ok]; [|reflexivity].
-    destruct (convert true e); cbn in *; rewrite <- IHe; reflexivity.
+    destruct (convert e); cbn in *; rewrite <- IHe; reflexivity.
   - cbn [convert shape_ok plain_ok]. destruct ops as [|op [|op2 ops]]; try reflexivity.
     destruct cs as [|c [|c2 cs]]; try reflexivity.
     inversion H as [|? ? Hc _]; subst. cbn [forallb]. rewrite andb_true_r.
-    destruct (convert true e); cbn [bindc is_ok] in *;
-      destruct (convert true c); cbn [bindc is_ok] in *; dbools.
+    destruct (convert e); cbn [bindc is_ok] in *;
+      destruct (convert c); cbn [bindc is_ok] in *; dbools.
   - cbn. destruct (named_constant id); reflexivity.
   - cbn. destruct (const_plain c); reflexivity.
-  - cbn [convert shape_ok plain_ok]. destruct (convert true e); cbn in *; rewrite <- IHe; reflexivity.
+  - cbn [convert shape_ok plain_ok]. destruct (convert e); cbn in *; rewrite <- IHe; reflexivity.
   - cbn [convert shape_ok plain_ok]. rewrite (is_ok_bindc _ _ true) by reflexivity.
     rewrite mapMc_ok_iff, andb_true_r, <- forallb_and. apply (Forall_forallb_eq _ _ _ _ H). auto.
   - cbn [convert shape_ok plain_ok]. rewrite (is_ok_bindc _ _ true) by reflexivity.
     rewrite mapMc_ok_iff, andb_true_r, <- forallb_and. apply (Forall_forallb_eq _ _ _ _ H). auto.
   - rewrite convert_call. cbn [andb shape_ok plain_ok]. fold kw_shape. fold kw_plain.
-    assert (Ha : is_ok (mapMc (convert true) args) = forallb shape_ok args && forallb plain_ok args).
+    assert (Ha : is_ok (mapMc (convert) args) = forallb shape_ok args && forallb plain_ok args).
     { rewrite mapMc_ok_iff, <- forallb_and. apply (Forall_forallb_eq _ _ _ _ H). auto. }
-    assert (Hk : (if negb (forallb kw_named kws) then false else is_ok (mapMc (conv_kw true) kws))
+    assert (Hk : (if negb (forallb kw_named kws) then false else is_ok (mapMc (conv_kw) kws))
                  = forallb kw_shape kws && forallb kw_plain kws).
     { rewrite mapMc_ok_iff. clear - H0. induction H0 as [|[k v] t Hv _ IH]; [reflexivity|].
       cbn [forallb kw_named kw_shape kw_plain conv_kw fst snd] in *.
-      assert (Hv' : is_ok (bindc (convert true v) (fun tv => Ok (k, tv))) = shape_ok v && plain_ok v).
-      { rewrite <- Hv. destruct (convert true v); reflexivity. }
+      assert (Hv' : is_ok (bindc (convert v) (fun tv => Ok (k, tv))) = shape_ok v && plain_ok v).
+      { rewrite <- Hv. destruct (convert v); reflexivity. }
       rewrite Hv'. clear Hv Hv'. destruct k; cbn [negb andb].
       - destruct (forallb kw_named t); cbn [negb] in *.
         + rewrite IH. dbools.
@@ -211,9 +175,9 @@ Proof.
       - dbools. }
     destruct (negb (forallb kw_named kws)) eqn:Hn.
     + clear Ha IHe. dbools.
-    + destruct (mapMc (convert true) args); cbn [bindc is_ok] in *;
-        destruct (mapMc (conv_kw true) kws); cbn [bindc is_ok] in *;
-          destruct (convert true e); cbn [bindc is_ok] in *; dbools.
+    + destruct (mapMc (convert) args); cbn [bindc is_ok] in *;
+        destruct (mapMc (conv_kw) kws); cbn [bindc is_ok] in *;
+          destruct (convert e); cbn [bindc is_ok] in *; dbools.
   - reflexivity.
 Qed.
 
@@ -236,56 +200,56 @@ Proof. induction l as [|x t IH]; cbn; [reflexivity|]. rewrite IH, andb_assoc; re
 
 Definition json_tree (t : tree) : bool := json_value (to_py t).
 
-Lemma mapMc_json strict es :
-  Forall (fun e => forall t, plain_ok e = true -> convert strict e = Ok t -> json_tree t = true) es ->
-  forall ts, forallb plain_ok es = true -> mapMc (convert strict) es = Ok ts -> forallb json_tree ts = true.
+Lemma mapMc_json es :
+  Forall (fun e => forall t, plain_ok e = true -> convert e = Ok t -> json_tree t = true) es ->
+  forall ts, forallb plain_ok es = true -> mapMc (convert) es = Ok ts -> forallb json_tree ts = true.
 Proof.
   induction 1 as [|e es He _ IH]; intros ts Hp Hc.
   - inversion Hc; reflexivity.
   - cbn in Hp. apply andb_true_iff in Hp. destruct Hp as [Hp1 Hp2].
-    rewrite mapMc_cons in Hc. destruct (convert strict e) as [t|] eqn:E; cbn in Hc; [|discriminate].
-    destruct (mapMc (convert strict) es) as [ts'|] eqn:E2; cbn in Hc; [|discriminate].
+    rewrite mapMc_cons in Hc. destruct (convert e) as [t|] eqn:E; cbn in Hc; [|discriminate].
+    destruct (mapMc (convert) es) as [ts'|] eqn:E2; cbn in Hc; [|discriminate].
     inversion Hc; subst. cbn. rewrite (He t Hp1 eq_refl), (IH ts' Hp2 eq_refl). reflexivity.
 Qed.
 
-Lemma convert_plain_json strict : forall e t,
-  plain_ok e = true -> convert strict e = Ok t -> json_tree t = true.
+Lemma convert_plain_json : forall e t,
+  plain_ok e = true -> convert e = Ok t -> json_tree t = true.
 Proof.
   unfold json_tree.
   induction e using expr_ind2; intros t Hp Hc.
-  - cbn [convert plain_ok] in *. destruct (mapMc (convert strict) vs) as [ts|] eqn:E; cbn in Hc; [|discriminate].
-    inversion Hc; subst. cbn. rewrite forallb_map. exact (mapMc_json strict vs H ts Hp E).
+  - cbn [convert plain_ok] in *. destruct (mapMc (convert) vs) as [ts|] eqn:E; cbn in Hc; [|discriminate].
+    inversion Hc; subst. cbn. rewrite forallb_map. exact (mapMc_json vs H ts Hp E).
   - cbn [convert plain_ok] in *. apply andb_true_iff in Hp. destruct Hp as [Hp1 Hp2].
     destruct op; [|discriminate].
-    destruct (convert strict e1) as [t1|] eqn:E1; cbn in Hc; [|discriminate].
-    destruct (convert strict e2) as [t2|] eqn:E2; cbn in Hc; [|discriminate].
+    destruct (convert e1) as [t1|] eqn:E1; cbn in Hc; [|discriminate].
+    destruct (convert e2) as [t2|] eqn:E2; cbn in Hc; [|discriminate].
     inversion Hc; subst. cbn. rewrite (IHe1 t1 Hp1 eq_refl), (IHe2 t2 Hp2 eq_refl). destruct a; reflexivity.
   - cbn [convert plain_ok] in *. destruct op; [|discriminate].
-    destruct (convert strict e) as [t1|] eqn:E1; cbn in Hc; [|discriminate].
+    destruct (convert e) as [t1|] eqn:E1; cbn in Hc; [|discriminate].
     inversion Hc; subst. cbn. rewrite (IHe t1 Hp eq_refl). reflexivity.
   - cbn [convert plain_ok] in *. apply andb_true_iff in Hp. destruct Hp as [Hp1 Hp2].
     destruct ops as [|op [|? ?]]; try discriminate. destruct cs as [|c [|? ?]]; try discriminate.
     inversion H as [|? ? Hc' _]; subst. cbn in Hp2. rewrite andb_true_r in Hp2.
-    destruct (convert strict e) as [t1|] eqn:E1; cbn in Hc; [|discriminate].
-    destruct (convert strict c) as [t2|] eqn:E2; cbn in Hc; [|discriminate].
+    destruct (convert e) as [t1|] eqn:E1; cbn in Hc; [|discriminate].
+    destruct (convert c) as [t2|] eqn:E2; cbn in Hc; [|discriminate].
     inversion Hc; subst. cbn. rewrite (IHe t1 Hp1 eq_refl), (Hc' t2 Hp2 eq_refl). destruct op; reflexivity.
   - cbn in Hc. unfold named_constant in Hc.
     repeat match type of Hc with context [if ?b then _ else _] => destruct b end; inversion Hc; reflexivity.
-  - cbn in *. destruct (strict && negb (const_plain c)); [discriminate|]. inversion Hc; subst. cbn. rewrite Hp; reflexivity.
-  - cbn [convert plain_ok] in *. destruct (convert strict e) as [t1|] eqn:E1; cbn in Hc; [|discriminate].
+  - cbn in *. destruct (negb (const_plain c)); [discriminate|]. inversion Hc; subst. cbn. rewrite Hp; reflexivity.
+  - cbn [convert plain_ok] in *. destruct (convert e) as [t1|] eqn:E1; cbn in Hc; [|discriminate].
     inversion Hc; subst. cbn. rewrite (IHe t1 Hp eq_refl). reflexivity.
-  - cbn [convert plain_ok] in *. destruct (mapMc (convert strict) es) as [ts|] eqn:E; cbn in Hc; [|discriminate].
-    inversion Hc; subst. cbn. rewrite forallb_map. exact (mapMc_json strict es H ts Hp E).
-  - cbn [convert plain_ok] in *. destruct (mapMc (convert strict) es) as [ts|] eqn:E; cbn in Hc; [|discriminate].
-    inversion Hc; subst. cbn. rewrite forallb_map. exact (mapMc_json strict es H ts Hp E).
+  - cbn [convert plain_ok] in *. destruct (mapMc (convert) es) as [ts|] eqn:E; cbn in Hc; [|discriminate].
+    inversion Hc; subst. cbn. rewrite forallb_map. exact (mapMc_json es H ts Hp E).
+  - cbn [convert plain_ok] in *. destruct (mapMc (convert) es) as [ts|] eqn:E; cbn in Hc; [|discriminate].
+    inversion Hc; subst. cbn. rewrite forallb_map. exact (mapMc_json es H ts Hp E).
   - rewrite convert_call in Hc. cbn [plain_ok] in Hp. fold kw_plain in Hp.
     apply andb_true_iff in Hp. destruct Hp as [Hp Hpk]. apply andb_true_iff in Hp. destruct Hp as [Hpf Hpa].
-    destruct (strict && negb (forallb kw_named kws)); [discriminate|].
-    destruct (mapMc (convert strict) args) as [targs|] eqn:Ea; cbn in Hc; [|discriminate].
-    destruct (mapMc (conv_kw strict) kws) as [tkws|] eqn:Ek; cbn in Hc; [|discriminate].
-    destruct (convert strict e) as [tf|] eqn:Ef; cbn in Hc; [|discriminate].
+    destruct (negb (forallb kw_named kws)); [discriminate|].
+    destruct (mapMc (convert) args) as [targs|] eqn:Ea; cbn in Hc; [|discriminate].
+    destruct (mapMc (conv_kw) kws) as [tkws|] eqn:Ek; cbn in Hc; [|discriminate].
+    destruct (convert e) as [tf|] eqn:Ef; cbn in Hc; [|discriminate].
     inversion Hc; subst. cbn [to_py json_value forallb]. rewrite json_pstr, (IHe tf Hpf eq_refl). cbn [andb].
-    rewrite forallb_app', forallb_map. fold json_tree. rewrite (mapMc_json strict args H targs Hpa Ea). cbn [andb].
+    rewrite forallb_app', forallb_map. fold json_tree. rewrite (mapMc_json args H targs Hpa Ea). cbn [andb].
     assert (Hkws : forallb (fun kw : option str * tree =>
                      json_value (match kw with
                                  | (k, v) => PList [match k with Some n => PLeaf (CStr n) | None => PLeaf CNone end; to_py v]
@@ -295,8 +259,8 @@ Proof.
       - cbn [forallb kw_plain] in Hpk. apply andb_true_iff in Hpk. destruct Hpk as [Hk1 Hk2].
         apply andb_true_iff in Hk1. destruct Hk1 as [Hk1 Hk1'].
         rewrite mapMc_cons in Ek. cbn [conv_kw] in Ek.
-        destruct (convert strict v) as [tv|] eqn:Ev; cbn in Ek; [|discriminate].
-        destruct (mapMc (conv_kw strict) t) as [tk'|] eqn:Et; cbn in Ek; [|discriminate].
+        destruct (convert v) as [tv|] eqn:Ev; cbn in Ek; [|discriminate].
+        destruct (mapMc (conv_kw) t) as [tk'|] eqn:Et; cbn in Ek; [|discriminate].
         inversion Ek; subst. cbn [forallb]. rewrite (IH Hk2 tk' eq_refl), andb_true_r.
         cbn in Hv. cbn. rewrite (Hv tv Hk1' Ev). destruct k; reflexivity. }
     destruct tkws as [|kw tk]; [reflexivity|]. cbn [forallb json_value]. rewrite forallb_map, json_pstr.
@@ -395,13 +359,13 @@ Qed.
 (* ------------------------------------------------------------------------------------------- *)
 (* Faithfulness: on the subset the tree evaluates to what the expression evaluates to. *)
 Section Faithful.
-  Context (M : PySem) (Hmem : membership_ignores_tuple M) (strict : bool) (g : env M).
+  Context (M : PySem) (Hmem : membership_ignores_tuple M) (g : env M).
 
   Definition faithful_at (e : expr) : Prop :=
-    exists t, convert strict e = Ok t /\ eval_tree M g t = eval_py M g e.
+    exists t, convert e = Ok t /\ eval_tree M g t = eval_py M g e.
 
   Definition faithful_list (es : list expr) : Prop :=
-    exists ts, mapMc (convert strict) es = Ok ts /\ mapMo (eval_tree M g) ts = mapMo (eval_py M g) es.
+    exists ts, mapMc (convert) es = Ok ts /\ mapMo (eval_tree M g) ts = mapMo (eval_py M g) es.
 
   (* what the induction carries: for a tuple display, element-wise agreement *)
   Definition Q (e : expr) : Prop :=
@@ -430,7 +394,7 @@ Section Faithful.
 
   Lemma faithful_boolop op vs :
     Forall (fun x => lenient x = true -> Q x) vs -> forallb in_subset vs = true ->
-    exists ts, mapMc (convert strict) vs = Ok ts /\
+    exists ts, mapMc (convert) vs = Ok ts /\
                boolop_sem M op (eval_tree M g) ts = boolop_sem M op (eval_py M g) vs.
   Proof.
     induction 1 as [|x t Hx _ IH]; intros Hs.
@@ -447,7 +411,7 @@ Section Faithful.
 
   Lemma faithful_kws kws :
     Forall (fun kw => lenient (snd kw) = true -> Q (snd kw)) kws -> forallb kw_in_subset kws = true ->
-    exists tkws, mapMc (conv_kw strict) kws = Ok tkws /\
+    exists tkws, mapMc (conv_kw) kws = Ok tkws /\
                  mapMo (kwarg_sem M (eval_tree M g)) tkws = mapMo (kwarg_sem M (eval_py M g)) kws.
   Proof.
     induction 1 as [|[k v] t Hv _ IH]; intros Hs.
@@ -462,8 +426,8 @@ Section Faithful.
   Qed.
 
   Lemma convert_cmp p l op c :
-    convert strict (ECompare p l [op] [c]) =
-    bindc (convert strict l) (fun tl => bindc (convert strict c) (fun tc => Ok (TCmp op tl tc))).
+    convert (ECompare p l [op] [c]) =
+    bindc (convert l) (fun tl => bindc (convert c) (fun tc => Ok (TCmp op tl tc))).
   Proof. reflexivity. Qed.
 
   Lemma eval_py_cmp p l op c :
@@ -515,7 +479,7 @@ Section Faithful.
       eexists; split; reflexivity.
     - (* Constant *)
       cbn [in_subset] in Hs. exists (TConst c). cbn [convert eval_tree eval_py]. rewrite Hs.
-      rewrite andb_false_r. split; reflexivity.
+      split; reflexivity.
     - (* Attribute *)
       cbn [in_subset] in Hs.
       destruct (Q_in_subset _ Hs (IHe (in_subset_lenient _ Hs))) as [t1 [C1 E1]].
@@ -534,7 +498,7 @@ Section Faithful.
       destruct (Q_in_subset _ Hf (IHe (in_subset_lenient _ Hf))) as [tf [Cf Ef]].
       destruct (faithful_elems args H Ha) as [targs [Ca Ea]].
       destruct (faithful_kws kws H0 Hk) as [tkws [Ck Ek]].
-      exists (TCall tf targs tkws). rewrite convert_call, (kw_in_subset_named kws Hk), andb_false_r, Ca, Ck, Cf.
+      exists (TCall tf targs tkws). rewrite convert_call, (kw_in_subset_named kws Hk). cbn [negb]. rewrite Ca, Ck, Cf.
       split; [reflexivity|]. cbn [eval_tree eval_py]. rewrite Hnd, Ef, Ea, Ek. reflexivity.
     - discriminate.
   Qed.
@@ -651,22 +615,10 @@ Proof.
   - eexists. split; [apply sub_refl|]. left. eauto.
 Qed.
 
-(* accepted by the code as it is  <->  no bad node anywhere *)
-Lemma convert_false_ok_spec e :
-  (exists t, convert false e = Ok t) <-> (forall x, subexpr x e -> ~ bad_node x).
-Proof.
-  split.
-  - intros [t Ht] x Hx Hb. pose proof (bad_subexpr_shape x e Hx Hb) as Hf.
-    rewrite <- convert_false_ok_iff, Ht in Hf. discriminate.
-  - intros H. apply is_ok_true_ok. rewrite convert_false_ok_iff.
-    destruct (shape_ok e) eqn:E; [reflexivity|]. destruct (shape_false_bad e E) as [x [Hx Hb]]. destruct (H x Hx Hb).
-Qed.
-
-Lemma bad_node_rejected strict e x : subexpr x e -> bad_node x -> exists err, convert strict e = Err err.
+Lemma bad_node_rejected e x : subexpr x e -> bad_node x -> exists err, convert e = Err err.
 Proof.
   intros Hx Hb. apply is_ok_false_err. pose proof (bad_subexpr_shape x e Hx Hb) as Hf.
-  destruct strict; [rewrite convert_true_ok_iff; unfold supported; rewrite Hf; reflexivity
-                   | rewrite convert_false_ok_iff; exact Hf].
+  rewrite convert_ok_iff; unfold supported; rewrite Hf; reflexivity.
 Qed.
 
 (* the odd nodes: exactly what makes a shape-correct expression unsupported *)
@@ -717,6 +669,58 @@ Proof.
   - discriminate.
 Qed.
 
+Lemma plain_child x e : child x e -> plain_ok e = true -> plain_ok x = true.
+Proof.
+  intros Hc. destruct Hc; cbn [plain_ok]; intros Hs.
+  - eapply forallb_In_true; eauto.
+  - apply andb_true_iff in Hs; tauto.
+  - apply andb_true_iff in Hs; tauto.
+  - assumption.
+  - apply andb_true_iff in Hs; tauto.
+  - apply andb_true_iff in Hs. destruct Hs as [_ Hs]. eapply forallb_In_true; eauto.
+  - assumption.
+  - eapply forallb_In_true; eauto.
+  - eapply forallb_In_true; eauto.
+  - apply andb_true_iff in Hs. destruct Hs as [Hs _]. apply andb_true_iff in Hs; tauto.
+  - apply andb_true_iff in Hs. destruct Hs as [Hs _]. apply andb_true_iff in Hs. destruct Hs as [_ Hs].
+    eapply forallb_In_true; eauto.
+  - apply andb_true_iff in Hs. destruct Hs as [_ Hs]. pose proof (forallb_In_true _ _ _ Hs H) as Hk. cbn in Hk.
+    apply andb_true_iff in Hk; tauto.
+Qed.
+
+Lemma plain_subexpr x e : subexpr x e -> plain_ok e = true -> plain_ok x = true.
+Proof. induction 1 as [|y e _ IH Hc]; intros Hs; [exact Hs | apply IH; eapply plain_child; eauto]. Qed.
+
+Lemma odd_node_plain x : odd_node x -> plain_ok x = false.
+Proof.
+  intros [[p [c [-> Hc]]]|[p [f [args [kws [-> Hk]]]]]]; [exact Hc|].
+  cbn [plain_ok]. apply andb_false_iff. right.
+  destruct (forallb_false_exists _ _ Hk) as [[k v] [Hin Hn]]. unfold kw_named in Hn. cbn in Hn.
+  destruct k; [discriminate|].
+  match goal with |- forallb ?f kws = false => destruct (forallb f kws) eqn:E; [|reflexivity];
+    pose proof (forallb_In_true _ _ _ E Hin) as Hkv end. cbn in Hkv. discriminate.
+Qed.
+
+Lemma odd_node_rejected e x : subexpr x e -> odd_node x -> exists err, convert e = Err err.
+Proof.
+  intros Hx Ho. apply is_ok_false_err. rewrite convert_ok_iff. unfold supported.
+  destruct (plain_ok e) eqn:E; [|apply andb_false_r].
+  pose proof (plain_subexpr x e Hx E). pose proof (odd_node_plain x Ho). congruence.
+Qed.
+
+(* accepted  <->  no bad node and no odd node anywhere *)
+Lemma convert_ok_spec e :
+  (exists t, convert e = Ok t) <-> (forall x, subexpr x e -> ~ bad_node x /\ ~ odd_node x).
+Proof.
+  split.
+  - intros [t Ht] x Hx. split; intros Hb;
+      [destruct (bad_node_rejected e x Hx Hb) | destruct (odd_node_rejected e x Hx Hb)]; congruence.
+  - intros H. apply is_ok_true_ok. rewrite convert_ok_iff. unfold supported.
+    destruct (shape_ok e) eqn:E1.
+    + destruct (plain_ok e) eqn:E2; [reflexivity|]. destruct (plain_false_odd e E2) as [x [Hx Ho]]. destruct (proj2 (H x Hx) Ho).
+    + destruct (shape_false_bad e E1) as [x [Hx Hb]]. destruct (proj1 (H x Hx) Hb).
+Qed.
+
 (* ------------------------------------------------------------------------------------------- *)
 (* Comments. *)
 
@@ -756,81 +760,38 @@ Proof.
     rewrite <- (rev_involutive s2), Hr, rev_app_distr. reflexivity.
 Qed.
 
-Lemma parse_predicate_comment strict e cs c t :
-  first_comment cs = Some c -> parse_predicate strict (Some e) cs = Ok t ->
-  exists t0, convert strict e = Ok t0 /\ t = TComment t0 (py_strip (tl c)).
+Lemma parse_predicate_comment e cs c t :
+  first_comment cs = Some c -> parse_predicate (Some e) cs = Ok t ->
+  exists t0, convert e = Ok t0 /\ t = TComment t0 (py_strip (tl c)).
 Proof.
-  intros Hc Hp. unfold parse_predicate in Hp. destruct (convert strict e) as [t0|]; cbn in Hp; [|discriminate].
+  intros Hc Hp. unfold parse_predicate in Hp. destruct (convert e) as [t0|]; cbn in Hp; [|discriminate].
   rewrite Hc in Hp. inversion Hp. eauto.
 Qed.
 
-Lemma parse_predicate_no_comment strict e cs :
-  first_comment cs = None -> parse_predicate strict (Some e) cs = convert strict e.
-Proof. intros Hc. unfold parse_predicate. destruct (convert strict e); cbn; rewrite ?Hc; reflexivity. Qed.
+Lemma parse_predicate_no_comment e cs :
+  first_comment cs = None -> parse_predicate (Some e) cs = convert e.
+Proof. intros Hc. unfold parse_predicate. destruct (convert e); cbn; rewrite ?Hc; reflexivity. Qed.
 
-Lemma parse_predicate_err_iff strict e cs :
-  is_ok (parse_predicate strict (Some e) cs) = is_ok (convert strict e).
-Proof. unfold parse_predicate. destruct (convert strict e); cbn; [destruct (first_comment cs)|]; reflexivity. Qed.
+Lemma parse_predicate_err_iff e cs :
+  is_ok (parse_predicate (Some e) cs) = is_ok (convert e).
+Proof. unfold parse_predicate. destruct (convert e); cbn; [destruct (first_comment cs)|]; reflexivity. Qed.
 
 (* the whole function on the faithful subset, comment or not *)
-Lemma parse_predicate_faithful (M : PySem) (Hmem : membership_ignores_tuple M) strict (g : env M) e cs :
+Lemma parse_predicate_faithful (M : PySem) (Hmem : membership_ignores_tuple M) (g : env M) e cs :
   in_subset e = true ->
-  exists t, parse_predicate strict (Some e) cs = Ok t /\ eval_tree M g t = eval_py M g e.
+  exists t, parse_predicate (Some e) cs = Ok t /\ eval_tree M g t = eval_py M g e.
 Proof.
-  intros Hs. destruct (convert_faithful_lemma M Hmem strict g e Hs) as [t [Ct Et]].
+  intros Hs. destruct (convert_faithful_lemma M Hmem g e Hs) as [t [Ct Et]].
   unfold parse_predicate. rewrite Ct. cbn [bindc]. destruct (first_comment cs).
   - eexists; split; [reflexivity|]. exact Et.
   - eexists; split; [reflexivity|]. exact Et.
 Qed.
 
-Lemma parse_predicate_json_ok strict e cs t :
-  plain_ok e = true -> parse_predicate strict (Some e) cs = Ok t -> json_value (to_py t) = true.
+Lemma parse_predicate_json_ok e cs t :
+  plain_ok e = true -> parse_predicate (Some e) cs = Ok t -> json_value (to_py t) = true.
 Proof.
-  intros Hp H. unfold parse_predicate in H. destruct (convert strict e) as [t0|] eqn:E; cbn in H; [|discriminate].
-  pose proof (convert_plain_json strict e t0 Hp E) as Hj. unfold json_tree in Hj.
+  intros Hp H. unfold parse_predicate in H. destruct (convert e) as [t0|] eqn:E; cbn in H; [|discriminate].
+  pose proof (convert_plain_json e t0 Hp E) as Hj. unfold json_tree in Hj.
   destruct (first_comment cs); inversion H; subst; cbn; rewrite ?Hj; reflexivity.
 Qed.
 
-(* ------------------------------------------------------------------------------------------- *)
-(* The proposed repair changes nothing on expressions whose constants are plain and keywords named. *)
-Lemma mapMc_ext_Forall {A B} (P : A -> Prop) (f g : A -> cres B) l :
-  Forall P l -> (forall x, P x -> f x = g x) -> mapMc f l = mapMc g l.
-Proof.
-  intros HF H. induction HF as [|x t Hx _ IH]; [reflexivity|]. rewrite !mapMc_cons, (H x Hx), IH. reflexivity.
-Qed.
-
-Lemma Forall_and_forallb {A} (P : A -> Prop) (f : A -> bool) l :
-  Forall (fun x => f x = true -> P x) l -> forallb f l = true -> Forall P l.
-Proof.
-  induction 1 as [|x t Hx _ IH]; intros Hf; [constructor|]. cbn in Hf. apply andb_true_iff in Hf.
-  constructor; [apply Hx | apply IH]; tauto.
-Qed.
-
-Lemma repair_conservative : forall e, plain_ok e = true -> convert true e = convert false e.
-Proof.
-  induction e using expr_ind2; cbn [plain_ok]; intros Hp.
-  - cbn [convert]. rewrite (mapMc_ext_Forall _ _ (convert false) vs (Forall_and_forallb _ _ _ H Hp)); auto.
-  - apply andb_true_iff in Hp. destruct Hp as [H1 H2]. cbn [convert]. rewrite (IHe1 H1), (IHe2 H2). reflexivity.
-  - cbn [convert]. rewrite (IHe Hp). reflexivity.
-  - apply andb_true_iff in Hp. destruct Hp as [H1 H2]. cbn [convert]. rewrite (IHe H1).
-    destruct ops as [|? [|? ?]]; try reflexivity. destruct cs as [|c0 [|? ?]]; try reflexivity.
-    inversion H as [|? ? Hc _]; subst. cbn in H2. rewrite andb_true_r in H2. rewrite (Hc H2). reflexivity.
-  - reflexivity.
-  - cbn. rewrite Hp. reflexivity.
-  - cbn [convert]. rewrite (IHe Hp). reflexivity.
-  - cbn [convert]. rewrite (mapMc_ext_Forall _ _ (convert false) es (Forall_and_forallb _ _ _ H Hp)); auto.
-  - cbn [convert]. rewrite (mapMc_ext_Forall _ _ (convert false) es (Forall_and_forallb _ _ _ H Hp)); auto.
-  - fold kw_plain in Hp. apply andb_true_iff in Hp. destruct Hp as [Hp Hk]. apply andb_true_iff in Hp. destruct Hp as [Hf Ha].
-    rewrite !convert_call. rewrite (IHe Hf).
-    rewrite (mapMc_ext_Forall _ _ (convert false) args (Forall_and_forallb _ _ _ H Ha)) by auto.
-    assert (Hn : forallb kw_named kws = true).
-    { apply forallb_forall. intros [k v] Hx. pose proof (forallb_In_true _ _ _ Hk Hx) as Hkv. cbn in Hkv.
-      apply andb_true_iff in Hkv. unfold kw_named; cbn. tauto. }
-    rewrite Hn. cbn [negb andb].
-    assert (Hkk : mapMc (conv_kw true) kws = mapMc (conv_kw false) kws).
-    { clear - H0 Hk. induction H0 as [|[k v] t Hv _ IH]; [reflexivity|].
-      cbn [forallb kw_plain] in Hk. apply andb_true_iff in Hk. destruct Hk as [Hk1 Hk2].
-      apply andb_true_iff in Hk1. rewrite !mapMc_cons. cbn [conv_kw]. cbn in Hv. rewrite (Hv (proj2 Hk1)), (IH Hk2). reflexivity. }
-    rewrite Hkk. reflexivity.
-  - reflexivity.
-Qed.
